@@ -9,13 +9,13 @@ def run(tier, seed):
                    extra_vo=('Model/Kernel.v', 'Model/ZMatrix.v', 'Model/Topology.v', 'Proofs/KernelP.v', 'Proofs/ZMatrixP.v', 'Corr/ZDriver.v', 'Gen/Tables.v'))
     rng = random.Random(seed)
     q = tier == 'quick'
-    zmat_cases(chk, rng, 32 if q else 400, (None, None, 'ideal'))
+    zmat_cases(chk, rng, 32 if q else 1600, (None, None, 'ideal'))
     # fixed probe for the recorded finding C06-junction-length-ratio
     probe = dict(f=21.0, media=None, family='probe-taper-junction', tagmode='none', sources=[], loads=[], wires=[
         dict(type='wire', nseg=6, p1=[0.0, 0.0, 0.0], p2=[3.7, 0.0, 0.0], r=0.0041, tag=None, taper=[2, None, None]),
         dict(type='wire', nseg=4, p1=[3.7, 0.0, 0.0], p2=[3.7, 2.124, 0.0], r=0.0077, tag=None, taper=None)])
     for _ in range(5):      # several copies: each draws its own reversal / order / split
         chk.notes.setdefault('failing_specs', []).insert(0, json.loads(json.dumps(probe)))
-    nor = 24 if (q and not chk.broken) else (64 if q else 400)
+    nor = 24 if (q and not chk.broken) else (64 if q else 1600)
     run_oracle(chk, rng, nor, 'zor.c06', 'c06-oracle', (None, None, 'ideal'))
     return chk.finish()
